@@ -321,6 +321,9 @@ func readEnum(tr *tokenReader, bitflags bool) (Enum, error) {
 			nextIsDeprecated = false
 			nextCommentLines = []string{}
 
+			// as for struct and message fields: a comment at the end of an option's
+			// line is not the doc comment of the next option
+			skipEndOfLineComments(tr)
 		case tokenKindOpenSquare:
 			if nextIsDeprecated {
 				return en, readError(tk, "expected enum option following deprecated annotation")
